@@ -84,6 +84,9 @@ class FnSpec:
         self.nodecreases = False
         self.combs = []         # (method, opt|res, n): inline that std combinator call with a closure literal into a match
         self.same_as = None     # `file.fns/key`: this (lifted) word carries the contract of that function
+        self.noisolation = False  # #[verifier::loop_isolation(false)]: loops see the facts established before them
+        self.arm = None         # Rarm: lift the block of this match arm out of function `key`
+        self.armsig = None      # .. as a function with this signature
         self.word = None        # lift the closure bound to this word name out of the word table `key`
 
 
@@ -141,7 +144,10 @@ def parse_fn_blocks(lines, origin):
                 elif a == 'assumed': fs.assumed = True
                 elif a.startswith('rlimit='): fs.rlimit = int(a[7:])
                 elif a == 'nodecreases': fs.nodecreases = True
+                elif a == 'noisolation': fs.noisolation = True
                 elif a.startswith('word='): fs.word = a[5:].strip('"')
+                elif a.startswith('arm='): fs.arm = a[4:].strip('"')
+                elif a.startswith('armsig='): fs.armsig = a[7:].strip('"')
                 elif a.startswith('same_as='): fs.same_as = a[8:]
                 else: raise AssembleError('%s: bad //@fn option %r' % (fs.origin, a))
             i += 1
@@ -376,6 +382,50 @@ def rule_R15(text, deltas):
                 deltas.append(dict(rule='R15', original=text[a:z], rewritten=new))
                 return text[:a] + new + text[z:]
     raise AssembleError('R15 does not apply (no `for I in (A..B).rev() {`)')
+
+
+def rule_R18(text, deltas):
+    """`for (P, Q) in E.enumerate() { BODY }`  ->  `let mut verif_cnt: usize = 0; for Q in E { let P = verif_cnt; BODY verif_cnt += 1; }`
+    (Enumerate yields the running count with each item; refused when BODY contains `continue`, which would skip the
+    increment; Verus has no spec for iterator adapters)"""
+    toks = code_tokens(text)
+    T = lambda j: text[toks[j][1]:toks[j][2]]
+    for j in range(len(toks) - 10):
+        if T(j) == 'for' and T(j + 1) == '(' and toks[j + 2][0] == 'ident' and T(j + 3) == ',':
+            pc = match_close(text, toks, j + 1)
+            if T(pc + 1) != 'in':
+                continue
+            # find `.enumerate() {`
+            k = pc + 2
+            depth = 0
+            found = None
+            while k + 4 < len(toks):
+                t = T(k)
+                if t in ('(', '[', '{'):
+                    if t == '{' and depth == 0:
+                        break
+                    depth += 1
+                elif t in (')', ']', '}'):
+                    depth -= 1
+                elif t == '.' and depth == 0 and T(k + 1) == 'enumerate' and T(k + 2) == '(' and T(k + 3) == ')' and T(k + 4) == '{':
+                    found = k
+                    break
+                k += 1
+            if found is None:
+                continue
+            bc = match_close(text, toks, found + 4)
+            body = text[toks[found + 4][2]:toks[bc][1]]
+            if re.search(r'\bcontinue\b', body):
+                raise AssembleError('R18 does not apply (`continue` inside the enumerate loop)')
+            P = T(j + 2)
+            Q = text[toks[j + 3][2]:toks[pc][1]].strip()
+            E = text[toks[pc + 1][2]:toks[found][1]].strip()
+            head = 'let mut verif_cnt: usize = 0;\nfor %s in %s {\nlet %s = verif_cnt;' % (Q, E, P)
+            new = head + body.rstrip() + '\nverif_cnt += 1;\n}'
+            a, z = toks[j][1], toks[bc][2]
+            deltas.append(dict(rule='R18', original=text[a:toks[found + 4][2]], rewritten=head + ' .. verif_cnt += 1; }'))
+            return text[:a] + new + text[z:]
+    raise AssembleError('R18 does not apply (no `for (P, Q) in E.enumerate() {`)')
 
 
 def rule_R16(text, deltas):
@@ -899,6 +949,30 @@ def lift_word(src, loc, word, where):
     return fn, l0, l1, st
 
 
+def lift_arm(src, loc, arm, armsig, where):
+    """Rarm: one arm of the `match` of a function.  `PATTERN => { BLOCK }` inside function `key` becomes
+    `fn SIG { <the const items the function declares before the match> BLOCK }`: the variables the pattern binds and the
+    locals of the function the block uses are the parameters of SIG.  Everything else of the function is dropped.
+    -> (fn text, line_start, line_end, original arm head)"""
+    text = src.text
+    body = text[loc['body_open']:loc['end']]
+    base = loc['body_open']
+    idx = body.find(arm + ' => {')
+    if idx < 0 or body.find(arm + ' => {', idx + 1) >= 0:
+        raise AssembleError('anchor lost: %s: match arm `%s => {` not found exactly once' % (where, arm))
+    toks = code_tokens(body)
+    ob = None
+    for j in range(len(toks)):
+        if toks[j][1] >= idx + len(arm) and body[toks[j][1]:toks[j][2]] == '{':
+            ob = j
+            break
+    cb = match_close(body, toks, ob)
+    block = body[toks[ob][2]:toks[cb][1]]
+    consts = re.findall(r'^\s*const\s+\w+\s*:\s*[^=;]+=\s*[^;]+;', body[:idx], re.M)
+    fn = 'fn %s {\n%s%s}' % (armsig, ''.join('    ' + c.strip() + '\n' for c in consts), block)
+    return fn, src.line_of(base + idx), src.line_of(base + toks[cb][2]), arm + ' => { .. }'
+
+
 def expand_fn(fs, assumed_override=False, notes=None):
     """-> (text, meta)"""
     owner, name = parse_key(fs.key)
@@ -924,8 +998,14 @@ def expand_fn(fs, assumed_override=False, notes=None):
         orig, l0, l1, stmt = lift_word(src, loc, fs.word, where0)
         loc = dict(loc, line_start=l0, line_end=l1, attrs='')
         deltas.append(dict(rule='Rword', original=stmt, rewritten=orig.split('{')[0].strip() + ' { <the bound closure body / call of the bound function> }'))
+    if fs.arm is not None:
+        where0 = '%s %s' % (fs.src, fs.key)
+        orig, l0, l1, stmt = lift_arm(src, loc, fs.arm, fs.armsig, where0)
+        loc = dict(loc, line_start=l0, line_end=l1, attrs='')
+        deltas.append(dict(rule='Rarm', original=stmt, rewritten='fn ' + fs.armsig + ' { <const items of the function> <the block of the arm> }'))
     sha = hashlib.sha256(orig.encode()).hexdigest()
-    body_open = (orig.index('{') if fs.word is not None else loc['body_open'] - loc['start'])
+    lifted = fs.word is not None or fs.arm is not None
+    body_open = (orig.index('{') if lifted else loc['body_open'] - loc['start'])
     text = orig
     if loc['attrs'].strip():
         deltas.append(dict(rule='attrs', original=loc['attrs'].strip(), rewritten='(dropped)'))
@@ -955,6 +1035,8 @@ def expand_fn(fs, assumed_override=False, notes=None):
             body = rule_R3c(body, deltas)
         if 'R15' in fs.rules:
             body = rule_R15(body, deltas)
+        if 'R18' in fs.rules:
+            body = rule_R18(body, deltas)
         if 'R16' in fs.rules:
             body = rule_R16(body, deltas)
         if 'R17' in fs.rules:
@@ -1150,10 +1232,12 @@ def expand_fn(fs, assumed_override=False, notes=None):
             out = '#[verifier::rlimit(%d)]\n' % fs.rlimit + out
         if fs.nodecreases:
             out = '#[verifier::exec_allows_no_decreases_clause]\n' + out
+        if fs.noisolation:
+            out = '#[verifier::loop_isolation(false)]\n' + out
     meta = dict(name=fs.key, file=fs.src, lines=[loc['line_start'], loc['line_end']], sha256=sha,
                 mode='assumed' if assumed else 'verified', props=fs.props, deltas=deltas,
-                contract=fs.origin, lost_anchors=lost, vname=('verif_word_' + _mangle(fs.word)) if fs.word is not None else (fs.rename or name),
-                owner=(None if fs.word is not None else owner))
+                contract=fs.origin, lost_anchors=lost, vname=('verif_word_' + _mangle(fs.word)) if fs.word is not None else (re.match(r'\s*(\w+)', fs.armsig).group(1) if fs.arm is not None else (fs.rename or name)),
+                owner=(None if (fs.word is not None or fs.arm is not None) else owner))
     return out, meta
 
 
